@@ -194,32 +194,31 @@ def t_compute_l():
     if params(fn) != ['i', 'm', 'j', 'n']:
         raise Unsupported('compute_l signature')
     out = f"Definition compute_l (i m j n : Z) : Z :=\n  {stmts(fn.body)}.\n"
-    # the key map of AccumulatedDerivative.__call__:  [(i + j, compute_l(-i, 0, -j, n)) for j, n in self._keys]
+    # the key map of AccumulatedDerivative.__call__:  (i + j, compute_l(-i, 0, -j, n)) for (j, n) in self._keys
     call = find_def('blocks/support/simple_displacement.py', 'AccumulatedDerivative.__call__')
     if params(call) != ['self', 'i']:
         raise Unsupported('__call__ signature')
-    comp = None
-    for n in ast.walk(call):
-        if isinstance(n, ast.ListComp):
-            comp = n
-    if comp is None or len(comp.generators) != 1:
-        raise Unsupported('__call__ list comprehension')
-    g = comp.generators[0]
-    if not (isinstance(g.target, ast.Tuple) and [x.id for x in g.target.elts] == ['j', 'n'] and not g.ifs
-            and ast.unparse(g.iter) == 'self._keys'):
-        raise Unsupported('__call__ generator')
-    elt = comp.elt
-    if not (isinstance(elt, ast.Tuple) and len(elt.elts) == 2):
-        raise Unsupported('__call__ element')
+    src = ast.unparse(call)
+    keyexprs = [n for n in ast.walk(call) if isinstance(n, ast.Tuple) and len(n.elts) == 2 and isinstance(n.elts[1], ast.Call)
+                and ast.unparse(n.elts[1].func) == 'compute_l']
+    if len(keyexprs) != 1:
+        raise Unsupported('__call__ key expression')
+    elt = keyexprs[0]
+    if 'for j, n in self._keys' not in src and 'for (j, n), x in zip(self._keys, self._fp_values)' not in src:
+        raise Unsupported('__call__ iteration')
 
     def e2(e):
         if isinstance(e, ast.Call) and isinstance(e.func, ast.Name) and e.func.id == 'compute_l' and len(e.args) == 4:
             return '(compute_l ' + ' '.join(expr(a) for a in e.args) + ')'
         return expr(e)
     out += f"\nDefinition acc_call_key (i : Z) (jn : Z * Z) : Z * Z :=\n  let '(j, n) := jn in ({e2(elt.elts[0])}, {e2(elt.elts[1])}).\n"
-    # how the new keys are paired with the values: dict(zip(keys, values)) [overwrite] or an accumulation
-    src = ast.unparse(call)
-    mode = 'zip_overwrite' if 'dict(zip(keys, self._fp_values))' in src else 'other'
+    # how the shifted keys are paired with the coefficients: dict(zip(keys, values)) overwrites equal keys; the loop accumulates
+    if 'dict(zip(keys, self._fp_values))' in src:
+        mode = 'zip_overwrite'
+    elif 'elements[k] = elements.get(k, 0.0) + x' in src and 'return AccumulatedDerivative(elements=elements, f_value=self.f_value)' in src:
+        mode = 'accumulate'
+    else:
+        raise Unsupported('__call__ pairing of keys and coefficients')
     out += f"\n(* pairing of shifted keys with coefficients in AccumulatedDerivative.__call__: {mode} *)\n"
     out += f"Definition acc_call_overwrites : bool := {'true' if mode == 'zip_overwrite' else 'false'}.\n"
     return out
